@@ -311,6 +311,10 @@ Definition flat_desc (d : adesc) : bool :=
 (* the member ids the XCDR2 parameter search can tell apart (it compares `as u16`) *)
 Definition ids_u16 (d : adesc) : bool := forallb (fun k => k <? 65536) (aids (ad_members d)).
 
+(* XCDR1: the float128 alignment of the reader differs from the writer's (C09-float128-xcdr1-align) *)
+Definition codec_ok (V : ver) (d : adesc) : bool :=
+  forallb (fun m => match V, am_ty m with V1, APrim PF128 => false | _, _ => true end) (ad_members d).
+
 (* XTypes default value of a member type (zero / empty string) *)
 Definition default_val (t : ty) : option val :=
   match t with
@@ -343,7 +347,56 @@ Definition projects (t1 : adesc) (v d : dyn) : bool :=
 (* strings whose encoded member fits the 32-bit length fields with its length prefix *)
 Definition small_val (x : val) : bool :=
   match x with
-  | VStr s => (blen (utf8_enc s) + 8 <=? u32_max) && (2 * blen (utf16_enc s) + 8 <=? u32_max)
+  | VStr s => (blen (utf8_enc s) + 64 <=? u32_max) && (3 * blen (utf16_enc s) + 64 <=? u32_max)
   | _ => true
   end.
 Definition small_dyn (v : dyn) : bool := forallb (fun kv => small_val (snd kv)) v.
+
+(* ------------------------------------------------- legitimate evolutions (specification) *)
+(* Independent of the TypeObject encoding and of the evaluation order of the code: when is the
+   writer type t2 a legitimate evolution of the reader type t1 (or vice versa) under the XTypes
+   rules the code implements.  Appendable: one member list extends the other; mutable: members
+   added / removed / reordered.  Corresponding members have the same id, the same name (unless
+   names are ignored) and the same type (string bounds per the policy); members present on one
+   side only are neither key nor must-understand and do not reuse a name of the reader type. *)
+Definition prim_same (p q : prim) : bool := tid_eqb (tid_of_prim p) (tid_of_prim q).
+Definition aty_accepts (tc : tce) (a b : aty) : bool :=
+  match a, b with
+  | APrim p, APrim q => prim_same p q
+  | AStr b1, AStr b2 | AWStr b1, AWStr b2 => bound_ok (tc_ign_str tc) b1 b2
+  | _, _ => false
+  end.
+Definition same_member (tc : tce) (a b : amember) : bool :=
+  (am_id a =? am_id b) && (tc_ign_names tc || (am_name a =? am_name b)) &&
+  aty_accepts tc (am_ty a) (am_ty b).
+Definition extra_ok (m : amember) : bool :=
+  negb (m_key (am_info m)) && negb (m_mu (am_info m) && negb (m_opt (am_info m))).
+Definition anames (ms : list amember) : list Z := map am_name ms.
+Fixpoint forall2b {A B} (p : A -> B -> bool) (l1 : list A) (l2 : list B) : bool :=
+  match l1, l2 with
+  | [], [] => true
+  | a :: r, b :: s => p a b && forall2b p r s
+  | _, _ => false
+  end.
+Fixpoint find_amember (id : Z) (ms : list amember) : option amember :=
+  match ms with [] => None | m :: r => if am_id m =? id then Some m else find_amember id r end.
+
+(* the rules for members looked up by id (MUTABLE; they also apply to APPENDABLE types) *)
+Definition by_id_rules (tc : tce) (ms1 ms2 : list amember) : bool :=
+  existsb (fun m2 => mem (am_id m2) (aids ms1)) ms2 &&
+  forallb (fun m2 => match find_amember (am_id m2) ms1 with
+                     | Some m1 => same_member tc m1 m2
+                     | None => (tc_ign_names tc || negb (mem (am_name m2) (anames ms1))) && extra_ok m2
+                     end) ms2 &&
+  forallb (fun m1 => mem (am_id m1) (aids ms2) || extra_ok m1) ms1.
+
+Definition evolves (tc : tce) (t1 t2 : adesc) : bool :=
+  let ms1 := ad_members t1 in let ms2 := ad_members t2 in
+  match ad_ext t1, ad_ext t2 with
+  | Final, Final => forall2b (same_member tc) ms1 ms2
+  | Appendable, Appendable =>
+    let k := Nat.min (length ms1) (length ms2) in
+    forall2b (same_member tc) (firstn k ms1) (firstn k ms2) && by_id_rules tc ms1 ms2
+  | Mutable, Mutable => by_id_rules tc ms1 ms2
+  | _, _ => false
+  end.
